@@ -1,11 +1,12 @@
 (* DvFib/Extract.v — extraction of the executable models and decidable spec predicates for the correspondence runner.
    ExtrOcamlBasic only; N/positive/nat stay Coq datatypes. *)
 From Coq Require Import Extraction ExtrOcamlBasic.
-From DvFib Require Import U64 GenConsts PfxLog DvFib.
+From DvFib Require Import U64 GenConsts PfxLog DvFib Executor.
 Extraction Language OCaml.
 Extraction "dvfib_model.ml"
   pub_new peer_new step announce withdraw on_sync set_reach try_fetch net_answer deliver timeout
   set_at set_eqb peer_ok mem apply_ops apply_dirty
   fib_empty fib_update update_h rt_run rt_apply rt_lookup desired mirrorsb build_entries cands desired_keys
+  xstep xinit loop_cond
   cost_infinity pub_snap_test fetch_snap_test
   N.add N.mul N.of_nat N.to_nat N.eqb N.ltb N.leb N.div N.modulo N.compare.
